@@ -158,7 +158,7 @@ _c("invert",
    modifies=["param:interval"],
    notes="the body reverses its argument in place twice; 'modifies' admits that, 'argument-unchanged' "
          "proves the contents are restored for every list of every length",
-   properties=["C03"], battery="lists")
+   properties=["C03", "C15"], battery="lists")
 
 
 _D = "digit(interval[len(interval) - 1])"
